@@ -34,8 +34,7 @@ def run(ctx):
     outs = ev.outcomes(gen)
     rets = [o for o in outs if o.kind == "return"]
     raises = [o for o in outs if o.kind == "raise"]
-    if len(rets) != 1:
-        raise AnalysisError(f"{fq}: expected one normal outcome, found {len(rets)}")
+    rets = generic.sole_outcome(ctx, rets, f"{fq}: expected one normal outcome, found {len(rets)}")
     o = rets[0]
 
     # ---- D1: record bytes placed at address and written to the output file
@@ -173,8 +172,7 @@ def merge_rules(ctx, ev):
     outs = ev.outcomes(mg)
     rets = [o for o in outs if o.kind == "return"]
     raises = [o for o in outs if o.kind == "raise"]
-    if len(rets) != 1:
-        raise AnalysisError(f"{fq}: expected one normal outcome")
+    rets = generic.sole_outcome(ctx, rets, f"{fq}: expected one normal outcome")
     o = rets[0]
     address, size = Sym("param:address"), Sym("param:size")
 
